@@ -27,9 +27,9 @@ Definition link_ok (f' : fsT) (link : bytes) (auto_dir : bytes) (explicit : opti
     end in
   match wanted, lstat f' link with
   | Some t, Some (Link t') => beq t t'
-  | Some _, _ => false
-  | None, None => true
-  | None, Some _ => false
+  | Some _, _ => false                 (* a foreign entry in the way: the mount must not report success *)
+  | None, Some (Link _) => false       (* a stale link to a directory that is not there *)
+  | None, _ => true                    (* nothing, or a foreign non-symlink entry that is left alone *)
   end.
 
 Definition in_export_tree (c : cfgT) (p : bytes) : bool := under (c_exports c) p.
